@@ -9,6 +9,9 @@ use byteorder::BigEndian;
 use std::collections::HashMap;
 use std::net::SocketAddr;
 
+/// Room for a full reply (64 players and their teams).
+const PACKET_SIZE: usize = 4096;
+
 struct GameSpy2 {
     socket: UdpSocket,
     retry_count: usize,
@@ -52,6 +55,13 @@ fn data_as_table(data: &mut Buffer<BigEndian>) -> GDResult<(HashMap<String, Vec<
     }
 
     let columns = column_heads.len();
+
+    // Every value takes at least its terminator (the very last one may lack it): the
+    // declared row count cannot ask for more values than there are bytes left
+    if rows * columns > data.remaining_length() + 1 {
+        return Err(GDErrorKind::PacketUnderflow.into());
+    }
+
     let mut table = HashMap::with_capacity(columns);
     for head in &column_heads {
         // TODO: This doesn't look good nor it is performant, fix later
@@ -100,7 +110,8 @@ impl GameSpy2 {
         self.socket
             .send(&[0xFE, 0xFD, 0x00, 0x00, 0x00, 0x00, 0x01, 0xFF, 0xFF, 0xFF])?;
 
-        let received = self.socket.receive(None)?;
+        // The default buffer size would cut a reply with many players short
+        let received = self.socket.receive(Some(PACKET_SIZE))?;
 
         let mut buf = Buffer::<BigEndian>::new(&received);
         if buf.read::<u8>()? != 0 || buf.read::<u32>()? != 1 {
